@@ -45,7 +45,7 @@ SPEC = {
     ],
     "assumptions": [
         "codec_ok cd (LZ4/Snappy: decompress (compress b) = b) is an explicit premise of C09_compressed; the tie validates it on every compressed case by running the real decompress on the real compressed body",
-        "frames below 4 GiB (blen f < 2^32 + 9): explicit premise of C09_parse_encode / C09_compressed / C09_encode_injective, shown necessary by C09_len32_wraps (`as u32` casts in SerializedRequest::make and compress_append); the tie does not build 4 GiB bodies",
+        "bodies of 2^32 bytes or more are refused (BodyTooLong, /repo a9f519c): modelled and proved (C09_oversize, C09_body_too_long, C09_uniform_batch); tied by the single case `L 4 40000000` (sizes only, ~5 GiB RAM for ~3 s, reported as skipped when MemAvailable is short) — reverting the fix turns that case into a viol",
         "the 2^31 boundaries ([long string], [bytes], value cells) are proved on the model and tied only at the 2^16 ones",
         "STARTUP: the HashMap iteration order is an oracle; the runner reports the order the real map iterated in and the model is run with that order (theorems hold for every order)",
     ],
